@@ -77,13 +77,14 @@ PROPS = {
     },
     'C03': {
         'verus': {'reader_search': ['Reader::nns', 'Reader::nns_by_leaf', 'NodeId::unwrap_item'],
-                  'reader_open': ['QueryBuilder::by_vector', 'QueryBuilder::by_item', 'item_leaf', 'Reader::dimensions']},
+                  'reader_open': ['QueryBuilder::by_vector', 'QueryBuilder::by_item', 'item_leaf', 'Reader::dimensions'],
+                  'search_lib': None},
         'kani': {'quick': [('distance_side', ['default_oversampling_constants'])]},
-        'trusted': ['std BinaryHeap (pop returns a minimum through Reverse), sort_unstable + dedup, Vec::extend from a bitmap iterator: stand-in contracts in units/lib/reader_types.rs',
+        'trusted': ['std BinaryHeap (pop returns a minimum through Reverse), sort_unstable + dedup, Vec::extend from a bitmap iterator (members appended in ascending order): stand-in contracts in units/lib/reader_types.rs',
+                    'budget monotonicity: std BinaryHeap is deterministic: what pop returns is a function (pop_of, uninterpreted) of the sequence of operations applied to the heap; with it the traversal loop is proved to be n steps of a budget-independent step function (t_iter), stopped by the budget (t_stops), and the result to be the selection of the count nearest among the collected candidates (top_of); unit search_lib proves from two such descriptions with budgets k1 <= k2 that the second result is not shorter and no rank is worse (pigeonhole over the sorted results). Runs that end in an error are not compared',
                     'OrderedFloat is a total order (order-embedding fkey into the integers, uninterpreted)',
                     'requires nodes_ok: Item keys hold leaves, Tree keys hold tree nodes whose children are Tree/Item references (local part of the C01 forest invariant)'],
-        'not_decided': ['budget monotonicity (enlarging the budget never shortens the result nor worsens a rank): needs the traversal as a spec function over the deterministic heap order; not built',
-                        'by_item(id) = by_vector(vector of id): both call nns_by_leaf whose contract mentions the query only through built_spec(query leaf, .); that new_header recomputes the header fields read by built_distance is not proved',
+        'not_decided': ['by_item(id) = by_vector(vector of id): both call nns_by_leaf whose contract mentions the query only through built_spec(query leaf, .); that new_header recomputes the header fields read by built_distance is not proved',
                         'every returned id is in reader.item_ids(): needs metadata.items = item key set (C01 build contract)'],
     },
     'C04': {
